@@ -32,7 +32,11 @@ CLAIM = dict(
     "clip/astype(int) warp: rotcorr_quarter_turn_2d/3d), destination metadata. Voxel-mode quarter turn: the exact model IS rot90 "
     "(warp_quarter_turn_voxel_exact) and every pre-image lies ON a rounding breakpoint where an arbitrarily small perturbation moves "
     "the source voxel (quarter_turn_voxel_on_breakpoint), whereas in voxel-centre mode all pre-images are half-integers and any "
-    "perturbation < 1/2 is harmless (quarter_turn_center_robust); general guard floor_stable_of_fracDist. Maps fitted in physical coordinates between two different systems (AffineCorrection / "
+    "perturbation < 1/2 is harmless (quarter_turn_center_robust); general guard floor_stable_of_fracDist. Different source / destination systems: in voxel and voxel-centre mode the pull-back "
+    "does not depend on the systems (src_voxelmodes_indep_of_systems, warp_shift_anysystems_voxelmodes); coordinate mode onto an "
+    "m-fold refined grid shows source voxel v/m - k (src_shift_coord_refined); 3-D quarter turn in coordinate mode about the "
+    "Cartesian x axis (src_quarter_turn_3d_coord). coordtransf_meta is definitional; its content is the exact tie of "
+    "CoordinateTransformation.__call__ (class, dimensions, origin, other metadata) to the model for different systems. Maps fitted in physical coordinates between two different systems (AffineCorrection / "
     "CoordinateTransformation with isometry): isometry_pairs_are_translation, src_/warp_shift_two_systems (zero-filled shift onto "
     "the destination canvas), isometry_wrong_system_differs. GeneralizedPerspectiveTransformation.inverse_array (perspective division, bulge and "
     "stretch polynomials as coded) over any field: gp_identity, gp_translation, gp_affine_reduction, gp_affine_eq_affine_inverse "
@@ -41,7 +45,11 @@ CLAIM = dict(
     "1e-11 with). The voxel-centre shift needs floor rounding in the point "
     "constructors: the rounding is re-tabulated from the running constructors on every run (currently floor, so the shift theorem "
     "holds in all three modes for the code as it is); for astype(int) truncation the negation is proved by witness.",
-    note="scipy from_rotvec matrices, numpy fancy assignment and float rounding are tied by correspondence (1e-12 / exact on "
+    note="rotcorr_quarter_turn_2d/3d and warp_quarter_turn_voxel_exact describe EXACT quarter-turn matrices - a state reached by "
+    "assigning rotation_inv on the object (that is how they are tied); RotationCorrection / AffineTransformation built from the ANGLE "
+    "pi/2 carry cos = 6e-17, which under astype(int) / floor lowers integer pre-images by one (known finding, signature restricted to "
+    "exactly that pattern). The per-object warp cache is modelled and tied in C10 (transf_cache_transparent, transfrun). "
+    "scipy from_rotvec matrices, numpy fancy assignment and float rounding are tied by correspondence (1e-12 / exact on "
     "dyadic inputs / breakpoint-aware on true rotations), not proved; quarter turn in *voxel* mode is decided by float noise "
     "of cos(pi/2) on rounding breakpoints (known finding, observed only); the Powell fit is out of scope (parameters set "
     "directly, a few fitted maps sampled).",
@@ -351,6 +359,53 @@ def corr_warps(ctx, d, rnd_name):
 
 
 
+def corr_ctmeta(ctx, d):
+    """CoordinateTransformation.__call__: class, dimensions, origin and the other metadata of the result vs the model, for source
+    and destination systems of different shape, voxel size and origin (all image classes, single and series)."""
+    rng = ctx.rng
+    lines, impl = [], []
+    kinds = {"Image": 0, "ScalarImage": 1, "OpticalImage": 2}
+    for i in range(ctx.pick(9, 60)):
+        kname = ("Image", "ScalarImage", "OpticalImage")[i % 3]
+        series = bool((i // 3) % 2)
+        shape = (rng.randint(2, 5), rng.randint(2, 5))
+        dshape = (rng.randint(2, 6), rng.randint(2, 6))
+        hs = [Fr(1, rng.choice([1, 2, 4])), Fr(1, rng.choice([1, 2, 4]))]
+        hd = [Fr(1, rng.choice([1, 2, 4])), Fr(1, rng.choice([1, 2, 4]))]
+        so = [dy(rng, -4, 4, 2), dy(rng, -4, 4, 2)]
+        do = [dy(rng, -4, 4, 2), dy(rng, -4, 4, 2)]
+        name = rng.randint(1, 99)
+        T = 2 if series else 0
+        sdims = [shape[0] * hs[0], shape[1] * hs[1]]
+        ddims = [dshape[0] * hd[0], dshape[1] * hd[1]]
+        others = [name, int(series), int(kname != "OpticalImage"), 2, T]
+        lines.append(f"ctmeta {kinds[kname]} {fmt(sdims[0])} {fmt(sdims[1])} {fmt(so[0])} {fmt(so[1])} {len(others)} "
+                     + " ".join(str(x) for x in others) + f" {fmt(ddims[0])} {fmt(ddims[1])} {fmt(do[0])} {fmt(do[1])}")
+
+        def run():
+            full = shape + ((T,) if series else ()) + ((3,) if kname == "OpticalImage" else ())
+            arr = np.arange(int(np.prod(full)), dtype=float).reshape(full)
+            kw = dict(dimensions=[float(x) for x in sdims], origin=[float(x) for x in so], name=str(name))
+            if series:
+                kw.update(series=True, time=[0.0, 1.0])
+            img = (d.Image(arr, scalar=True, **kw) if kname == "Image" else d.ScalarImage(arr, **kw) if kname == "ScalarImage"
+                   else d.OpticalImage(arr, **kw))
+            dst = mk_image(d, dshape, hd, do)
+            pts = np.array([[0, 0], [shape[0], 0], [0, shape[1]], [shape[0], shape[1]]], dtype=float)
+            ct = d.CoordinateTransformation(img.coordinatesystem, dst.coordinatesystem, d.make_voxel(pts), d.make_voxel(pts),
+                                            fit_options={"tol": 1e-6, "maxiter": 200})
+            res = ct(img)
+            if res.img.shape[:2] != dshape:
+                raise ValueError("result array does not have the destination shape")
+            oth = [int(res.name), int(bool(res.series)), int(bool(res.scalar)), int(res.space_dim), int(res.time_num) if res.series else 0]
+            return (f"{kinds.get(type(res).__name__, 9)} | {fmt(res.dimensions[0])} {fmt(res.dimensions[1])} | {fmt(res.origin[0])} {fmt(res.origin[1])} | "
+                    + " ".join(str(x) for x in oth))
+
+        r = call(run)
+        impl.append(repr(r) if isinstance(r, Raised) else r)
+    return ctx.correspond("CoordinateTransformation.__call__ result class / dimensions / origin / other metadata (exact)", lines, impl)
+
+
 def corr_genperspective(ctx, d):
     """GeneralizedPerspectiveTransformation.inverse_array with parameters set directly (set_parameters_as_vector + the image
     box attributes that `fit` derives from the destination system); dyadic parameters and points."""
@@ -574,8 +629,73 @@ def check_warp_case(ctx, d, case):
         if isinstance(out, Raised):
             return [(f"C09:warp(quarter-turn,mode={mode}):raises", f"{out}")]
         if out.shape != exp.shape or not np.array_equal(out, exp):
-            bad.append((f"C09:warp(quarter-turn,mode={mode}):not-rot90",
-                        f"quarter turn ({'+' if sgn > 0 else '-'}pi/2) of shape {shape} in {mode} mode is not np.rot90"))
+            cls = "not-rot90"
+            if mode == "voxel" and out.shape == exp.shape:
+                # theorem quarter_turn_voxel_on_breakpoint: every exact pre-image component is an integer, so float noise can only
+                # lower a source index by one (floor(n - eps) = n - 1); index -1 is invalid -> zero fill. Anything else is a violation.
+                noise = True
+                for i in range(exp.shape[0]):
+                    for j in range(exp.shape[1]):
+                        e0, e1 = (j, n1 - 1 - i) if sgn > 0 else (n0 - 1 - j, i)
+                        ok = False
+                        for a0 in (0, 1):
+                            for a1 in (0, 1):
+                                p0, p1 = e0 - a0, e1 - a1
+                                want = arr[p0, p1] if (0 <= p0 < n0 and 0 <= p1 < n1) else np.zeros_like(arr[0, 0])
+                                ok = ok or np.array_equal(out[i, j], want)
+                        noise = noise and ok
+                if noise:
+                    cls = "breakpoint-noise(source index -1)"
+            bad.append((f"C09:warp(quarter-turn,mode={mode}):{cls}",
+                        f"quarter turn ({'+' if sgn > 0 else '-'}pi/2) of shape {shape} in {mode} mode is not np.rot90"
+                        + (" (differs only at voxels whose exact integer pre-image was lowered by one)" if cls != "not-rot90" else "")))
+    elif kind == "resample":
+        # whole-voxel translation between DIFFERENT systems (shape, voxel size, origin), all three modes
+        k = case["k"]
+        dshape = tuple(case["dshape"])
+        if mode == "coord":
+            m = case["refine"]  # destination voxel size = source voxel size / m (same origin corner)
+            dh = [hh / mm for hh, mm in zip(h, m)]
+            dorigin = [float(x) for x in src.origin]
+            t = shift_vec("coord", h, k, dim)
+        else:
+            m = [1] * dim
+            dh = [Fr(x) for x in case["dh"]]
+            dorigin = case.get("dorigin")
+            t = [Fr(x) for x in k]
+        dst = call(mk_image, d, dshape, dh, dorigin)
+        if isinstance(dst, Raised):
+            return [("C09:Image:raises", f"{dst}")]
+        out = call(warp_impl, d, mode, src, dst, t, 1.0, None if case.get("no_rot", True) else [0.0] * (1 if dim == 2 else 3), arr.copy())
+        exp = np.zeros(dshape + trail, dtype=arr.dtype)
+        for v in np.ndindex(*dshape):
+            p = tuple(v[a] // m[a] - k[a] for a in range(dim))
+            if all(0 <= p[a] < shape[a] for a in range(dim)):
+                exp[v] = arr[p]
+        if isinstance(out, Raised):
+            return [(f"C09:warp(two-systems,mode={mode}):raises", f"{out}")]
+        if out.shape != exp.shape or out.dtype != exp.dtype or not np.array_equal(out, exp):
+            bad.append((f"C09:warp(two-systems,mode={mode},dim={dim}):wrong-array",
+                        f"translation by {k} source voxels from shape {shape} (voxel size {[str(x) for x in h]}) onto shape {dshape} "
+                        f"(voxel size {[str(x) for x in dh]}) in {mode} mode: result is not the shifted"
+                        f"{' and ' + str(m) + '-fold refined' if mode == 'coord' else ''} source array with zero fill"))
+    elif kind == "quarter3-coord":
+        # +pi/2 about the Cartesian x axis, expressed in physical coordinates (theorem src_quarter_turn_3d_coord)
+        n0, n1, n2 = shape
+        dshape, dh = (n2, n1, n0), [h[2], h[1], h[0]]
+        dst = call(mk_image, d, dshape, dh, case.get("dorigin"))
+        if isinstance(dst, Raised):
+            return [("C09:Image:raises", f"{dst}")]
+        ox, oy, oz = [Fr(float(x)) for x in src.origin]
+        dx, dyo, dz = [Fr(float(x)) for x in dst.origin]
+        t = [dx - ox, dyo + oz - n0 * h[0], dz - oy]
+        out = call(warp_impl, d, "coord", src, dst, t, 1.0, [math.pi / 2, 0.0, 0.0], arr.copy())
+        exp = np.rot90(arr, 1, axes=(2, 0))
+        if isinstance(out, Raised):
+            return [("C09:warp(quarter-turn-3d,mode=coord):raises", f"{out}")]
+        if out.shape != exp.shape or not np.array_equal(out, exp):
+            bad.append(("C09:warp(quarter-turn-3d,axis=x,mode=coord):not-rot90",
+                        f"+pi/2 about the Cartesian x axis of shape {shape} in coordinate mode is not np.rot90(arr, 1, axes=(2, 0))"))
     elif kind == "quarter3":
         # 3-D quarter turn about matrix axis `axis` in voxel-centre mode (robust: pre-images are half-integers)
         axis = case["axis"]
@@ -862,9 +982,33 @@ def oracle(ctx, d):
                     dtype=rng.choice(dtypes), trail=rng.choice([[], [2]]))
         ctx.count(("quarter3", i % 3, tuple(shape)), nontrivial=int(np.prod(shape)) > 1)
         report(ctx, check_warp_case(ctx, d, case), case)
+    for i in range(ctx.pick(45, 600)):
+        dim = 2 if i % 3 else 3
+        mode = MODES[i % 3] if dim == 2 else MODES[(i // 3) % 3]
+        shape = [rng.choice([1, 2, 3, 4, 5, 6]) for _ in range(dim)]
+        dshape = [rng.choice([1, 2, 3, 4, 5, 6, 7, 9]) for _ in range(dim)]
+        case = dict(kind="resample", dim=dim, mode=mode, shape=shape, dshape=dshape,
+                    h=[str(Fr(1, rng.choice([1, 2, 4])) * rng.choice([1, 2])) for _ in range(dim)],
+                    dh=[str(Fr(1, rng.choice([1, 2, 4])) * rng.choice([1, 3])) for _ in range(dim)],
+                    refine=[rng.choice([1, 2, 4]) for _ in range(dim)],
+                    origin=[str(dy(rng, -4, 4, 2)) for _ in range(dim)] if rng.random() < 0.6 else None,
+                    dorigin=[str(dy(rng, -4, 4, 2)) for _ in range(dim)] if rng.random() < 0.6 else None,
+                    k=[0] * dim if i % 5 == 0 else [rng.randint(-n - 1, n + 1) for n in shape], no_rot=bool(rng.getrandbits(1)),
+                    dtype=rng.choice(dtypes), trail=rng.choice([[], [], [3]]))
+        ctx.count(("resample", dim, mode, tuple(shape), tuple(dshape), tuple(case["k"])))
+        report(ctx, check_warp_case(ctx, d, case), case)
+    for i in range(ctx.pick(8, 120)):
+        shape = [rng.choice([1, 2, 3, 4, 5]) for _ in range(3)]
+        case = dict(kind="quarter3-coord", dim=3, mode="coord", shape=shape, h=[str(Fr(1, rng.choice([1, 2, 4]))) for _ in range(3)],
+                    origin=[str(dy(rng, -4, 4, 2)) for _ in range(3)] if i % 2 else None,
+                    dorigin=[str(dy(rng, -4, 4, 2)) for _ in range(3)] if i % 3 == 0 else None,
+                    dtype=rng.choice(dtypes), trail=rng.choice([[], [2]]))
+        ctx.count(("quarter3-coord", tuple(shape)), nontrivial=int(np.prod(shape)) > 1)
+        report(ctx, check_warp_case(ctx, d, case), case)
     for i in range(ctx.pick(12, 200)):
         shape = [rng.choice([1, 2, 3, 4, 5, 6, 7]) for _ in range(2)]
-        case = dict(kind="quarter-exact", dim=2, mode="voxel", shape=shape, h=["1/2", "1/2"], sign=1 if i % 2 == 0 else -1,
+        case = dict(kind="quarter-exact", dim=2, mode="voxel", shape=shape, h=[str(Fr(1, rng.choice([1, 2, 4]))) for _ in range(2)],
+                    origin=[str(dy(rng, -4, 4, 2)) for _ in range(2)] if i % 3 == 0 else None, sign=1 if i % 2 == 0 else -1,
                     dtype=rng.choice(dtypes), trail=rng.choice([[], [3]]))
         ctx.count(("quarter-exact", tuple(shape), case["sign"]), nontrivial=int(np.prod(shape)) > 1)
         report(ctx, check_warp_case(ctx, d, case), case)
@@ -975,6 +1119,7 @@ def run(ctx):
     corr_coordinatesystem(ctx, d)
     corr_warps(ctx, d, rnd_name)
     corr_genperspective(ctx, d)
+    corr_ctmeta(ctx, d)
     # (4) oracle
     oracle(ctx, d)
 
